@@ -10,7 +10,7 @@ import (
 
 // VerifC10Timers: histories over two timers in two scopes, interleaved with report
 // passes; plain reporter, cached reporter, and a reporter-less test scope.
-func VerifC10Timers() { c10Timers(3) }
+func VerifC10Timers()  { c10Timers(3) }
 func VerifC10Timers4() { c10Timers(4) }
 
 func c10Timers(steps int) {
